@@ -264,6 +264,28 @@ def noshare(ctx):
                   key='holder-state %s' % cname)
 
 
+def reachable_arrays(obj, limit=400):
+    """[(path, Arr)] reachable from an object of the analysed program through attributes, lists, tuples and dicts."""
+    out, seen, todo = [], set(), [('self', obj)]
+    while todo and len(seen) < limit:
+        path, v = todo.pop()
+        if id(v) in seen:
+            continue
+        seen.add(id(v))
+        if isinstance(v, Arr):
+            out.append((path, v))
+        elif isinstance(v, Obj):
+            for k, w in v.attrs.items():
+                todo.append(('%s.%s' % (path, k), w))
+        elif isinstance(v, (list, tuple)):
+            for i, w in enumerate(v):
+                todo.append(('%s[%d]' % (path, i), w))
+        elif isinstance(v, dict):
+            for k, w in v.items():
+                todo.append(('%s[%r]' % (path, k), w))
+    return out
+
+
 def nomutate(ctx):
     """Full __call__ in the data-abstract domain: the buffer of x and of an array call argument are never written."""
     rep = ctx.rep
@@ -290,17 +312,25 @@ def nomutate(ctx):
             x = s.x_array(xshape)
             extra = Arr((2,), [DV({('arg', 0)}), DV({('arg', 1)})])
             holder['x'], holder['extra'] = x, extra
-            before = (list(x.buf.data), list(extra.buf.data))
+            # arrays that belong to the configuration (they exist before the first call; scratch arrays an object creates
+            # for itself later are judged by the history scenarios, not here)
+            reach = reachable_arrays(d)
+            counts = [(nm, a.buf, len(a.buf.writes)) for nm, a in reach]
             d(x, extra) if cls == 'Derivative' else d(x)
-            return (len(x.buf.writes), len(extra.buf.writes), before[0] == list(x.buf.data), before[1] == list(extra.buf.data))
+            before = (list(x.buf.data), list(extra.buf.data))
+            wx0, we0 = len(x.buf.writes), len(extra.buf.writes)
+            d(x, extra) if cls == 'Derivative' else d(x)
+            holder['kept'] = sorted({nm for nm, buf, n0 in counts if len(buf.writes) > n0})
+            return (len(x.buf.writes) - wx0, len(extra.buf.writes) - we0, before[0] == list(x.buf.data),
+                    before[1] == list(extra.buf.data), holder['kept'])
         ex = explore(ctx.repo, body, pinned={'(np.abs(step) > 0).all()': True})
         bad = []
         for decisions, res, exc in ex.paths:
             if exc is not None:
                 continue
-            wx, we, samex, samee = res
-            if wx or we or not samex or not samee:
-                bad.append({'writes_to_x': wx, 'writes_to_argument': we})
+            wx, we, samex, samee, kept = res
+            if wx or we or not samex or not samee or kept:
+                bad.append({'writes_to_x': wx, 'writes_to_argument': we, 'configuration_arrays_written_in_place': kept[:4]})
         rep.check(not bad, 'R-NOMUTATE', 'core.%s.__call__' % cls, core.relpath,
                   {'paths': len(ex.paths), 'in_place_writes': bad[:2]}, 'inputs are never written in place',
                   '%s/%s/x.shape=%s' % (cls, sorted(kw.items()), xshape), key='mutate-input')
